@@ -408,11 +408,31 @@ def R_def_text(f, expr: ast.expr) -> str:
 
 
 # ------------------------------------------------------------------------------------------ R4 validation / R5 api
+def longest_path_call(m, f):
+    """(the nx.dag_longest_path call, the node of critical_path that stands for it, the private helper holding it or None)"""
+    lp = [n for n in ast.walk(f) if isinstance(n, ast.Call) and call_name(n).endswith("dag_longest_path")]
+    if len(lp) == 1:
+        return lp[0], lp[0], None
+    if not lp:
+        found = []
+        for c in ast.walk(f):
+            if isinstance(c, ast.Call) and isinstance(c.func, ast.Attribute) and H.is_self_attr(c.func) and c.func.attr.startswith("_"):
+                q = H.resolve_method(m, "CPGraph", c.func.attr)
+                d = m.functions.get(q) if q else None
+                if d is None:
+                    continue
+                inner = [n for n in ast.walk(d) if isinstance(n, ast.Call) and call_name(n).endswith("dag_longest_path")]
+                found += [(x, c, d) for x in inner]
+        if len(found) == 1:
+            return found[0]
+    raise AnalysisError("critical_path: the longest-path call was not found")
+
+
 def _validation(db, chk, m):
     rule = "C08.R4-validation"
     f = m.func("CPGraph.critical_path")
     body = f.body
-    lp = [n for n in ast.walk(f) if isinstance(n, ast.Call) and call_name(n).endswith("dag_longest_path")]
+    lp = [longest_path_call(m, f)[1]]          # the node of critical_path that stands for the computation (the call itself or the call of the helper holding it)
     guard = [s for s in body if isinstance(s, ast.If) and "_validate_graph" in ast.unparse(s.test)]
     ok = len(lp) == 1 and len(guard) == 1 and isinstance(guard[0].test, ast.UnaryOp) and isinstance(guard[0].test.op, ast.Not) and any(isinstance(x, ast.Raise) for x in guard[0].body) \
         and guard[0].lineno < lp[0].lineno
